@@ -101,3 +101,56 @@ PROPS["C31"] = {
     "trusted_base": ["kani 0.68.0 + cbmc 6.11", "verus 0.2026.09.13 + z3 (meta-lemma)"],
     "explanation": "Eq/Ord/Hash laws of Value and Tuple",
 }
+
+PROPS["C35"] = {
+    "verus": [],
+    "kani": ["wire"],
+    "level": "proof",
+    "level_text": "Kani/CBMC harnesses over the real compare_wire_values: reflexivity, antisymmetry and transitivity on fully symbolic triples within each comparison class (Int64 and Float64 form one class, every mix), payload-independent strict order across classes, class table a strict total order; with the ordinal-sum meta-lemma (Verus, shared with C31) this makes the comparator a total preorder on every mix of kinds, i.e. sort_by cannot observe an inconsistent comparator. Complete for absent/Null/Bool/Int32/Int64/Float64/Timestamp; strings/vectors/bytes BOUNDED (len<=1). Comparator clause only: the slice/total-count clauses (apply_pagination, sort_rows on Vec<WireTuple>) are not decided.",
+    "level_note": "trusted: Kani+CBMC; std String::cmp; slice::sort_by sorts when given a total preorder; pagination/total count not covered (CBMC out of memory on 3 rows; Verus rejects the iterator chain)",
+    "technique": "Kani proof harnesses injected as a child module of src/protocol/handler.rs in a scratch copy (insert-only), full-domain symbolic scalars with concrete enum kinds; ordinal-sum meta-lemma in Verus",
+    "aux_failure": "violation",
+    "functions_under_contract": ["src/protocol/handler.rs: compare_wire_values, wire_value_type_rank (private; reached from an injected child module)"],
+    "assumptions": [
+        "slice::sort_by returns a permutation sorted by the comparator whenever the comparator is a total preorder (std)",
+        "strings/vectors/bytes: payload length <= 1; std's String ordering trusted beyond that",
+        "apply_pagination (slice + take + clone) and the reported total are NOT decided",
+        "sort_rows' per-row lexicographic combination over the order_by list is covered by the lexicographic meta-lemma (verus/order_lemmas.spec theorem_lex) only in the abstract",
+    ],
+    "trusted_base": ["kani 0.68.0 + cbmc 6.11", "verus (meta-lemma in order_lemmas.spec, checked under C31)"],
+    "explanation": "sort comparator is a total preorder for every mix of value kinds",
+}
+
+
+def _pre_coercion_table(repo, root):
+    import os
+    import gen_coercion
+    text, table = gen_coercion.generate(repo)
+    os.makedirs("/var/tmp/ilverif/gen", exist_ok=True)
+    with open("/var/tmp/ilverif/gen/coercion_table.rs", "w") as f:
+        f.write(text)
+    return {"generated": "/var/tmp/ilverif/gen/coercion_table.rs", "from": "src/value/arrow_convert.rs: build_column_array, extract_value_from_array", "table": table}
+
+
+PRE_HOOKS = {"coercion_table": _pre_coercion_table}
+
+PROPS["C12"] = {
+    "verus": [],
+    "kani": ["coercion"],
+    "pre": ["coercion_table"],
+    "level": "proof",
+    "level_text": "Kani/CBMC over the real Value accessors, data_type and ==, composed exactly as build_column_array / extract_value_from_array compose them (pairing generated from their match arms on every run): for each scalar column type, a value of the column's own kind, Null, and a value of every other scalar kind must come back == (same kind, same bits). Full bit-vector domain per kind (strings: 1 byte). This is the per-column coercion kernel of the batch-file path; WAL JSON encoding, vectors and the Arrow/Parquet libraries themselves are not covered. Two genuine defects are recorded as known findings with residual obligations.",
+    "level_note": "trusted: Kani+CBMC; Arrow arrays return the Option<payload> they were built from; Parquet round-trips Arrow; the generator's reading of the two match statements (a changed arm it cannot read is exit 2)",
+    "technique": "Kani proof harnesses injected as a child module of src/value/arrow_convert.rs in a scratch copy; accessor/constructor pairing generated from the source's match arms each run",
+    "aux_failure": "violation",
+    "functions_under_contract": ["src/value/mod.rs: Value::{data_type, as_i32, as_i64, as_f64, as_str, as_bool, as_timestamp}, <Value as PartialEq>::eq",
+                                 "src/value/arrow_convert.rs: build_column_array, extract_value_from_array (match arms read mechanically, bodies not executed: Arrow arrays are outside CBMC's reach)"],
+    "assumptions": [
+        "an Arrow primitive/string/boolean array returns exactly the Option<payload> it was constructed from, and Parquet round-trips the Arrow batch (dependency contracts)",
+        "vector columns (FixedSizeList/LargeList arms; zero padding of mismatching values) are not covered",
+        "the JSON WAL encoding (Serialize/Deserialize for Value) is not covered: serde_json + format machinery is outside both verifiers",
+        "that the store always reopens is not decided",
+    ],
+    "trusted_base": ["kani 0.68.0 + cbmc 6.11", "tools/gen_coercion.py (reads the match arms)"],
+    "explanation": "per-column coercion kernel of the Parquet batch path",
+}
